@@ -25,6 +25,7 @@ from coreutil import Scenario, reads
 from refcodec import server_frame, close_payload
 
 TRUSTED = ['harness/translate.py (persist -> connect keyword extraction)',
+           'composed model: the `persistcore` driver op (Model/PersistLink.lean) is compared with the real persist() over real connections on the world stream',
            'correspondence: harness/props/c16.py (scripted websocket / random / exit_event) + harness/world.py (simulated socket, selector, clock)',
            'oracle arithmetic: Python fractions.Fraction']
 ASSUMPTIONS = ['min_wait <= max_wait for the bounds claim (for min_wait > max_wait only the formula is checked)',
@@ -309,6 +310,15 @@ def cfg_part(case):
     else:
         p = (ptok(pval(case['poll'])), ptok(pval(case['prate'])), ptok(pval(case['ptimeout'])))
     return 'persist min=%s max=%s poll=%s prate=%s ptimeout=%s' % ((ptok(pval(case['min'])), ptok(pval(case['max']))) + p)
+
+
+def composed_line(case):
+    """`persistcore` op: persist's configuration, then per attempt the draw, the exit flag and the `core` line of its connection"""
+    secs = ['persistcore' + cfg_part(case)[len('persist'):]]
+    for rnd, j in zip(case['rounds'], case['scs']):
+        core = W.scenario_line(coreutil.scenario_from_json(j))
+        secs.append('%s %s ## %s' % (frac(draw_frac(rnd['draw'])), '1' if rnd['exit'] else '0', core[5:]))
+    return ' || '.join(secs)
 
 
 def model_line(case, attempt_tokens):
@@ -678,6 +688,17 @@ def explore(res, tier, seed, model_ok=True):
             real = ' '.join(wreals[i]['ptrace'])
             if real != m:
                 res.diffs.append(dict(input=line[:3000], real=real[-1500:], model=m[-1500:], case=wcases[i]))
+    # ---- the COMPOSED model (Model/PersistLink.lean, Properties/C16_Core.lean): persist() over the core model -- every
+    # attempt is a `core` line, its events are those of `Core.runAll`, not the real run's -- against the real persist trace
+    if model_ok and wi:
+        cl = [composed_line(wcases[i]) for i in wi]
+        for line, i, m in zip(cl, wi, runner.model_run(cl)):
+            real = ' '.join(wreals[i]['ptrace'])
+            res.count('stream:world-composed')
+            res.traces_validated += 1
+            if real != m:
+                res.diffs.append(dict(input=line[:3000], real=real[-1500:], model=m[-1500:], case=wcases[i], what='persistcore'))
+        res.samples.append(cl[0][:500])
     res.samples += [lines[n_exh][:400] if len(lines) > n_exh else '', lines[0][:300]] + [l[:500] for l in wl[:2]]
 
 
